@@ -369,3 +369,59 @@ def strict_json(ctx):
                       'NaN/Infinity can not be emitted', 'json.dumps is called with the default allow_nan=True and '
                       'FloatRange.__call__ lets NaN through (clamp(-max, nan, max) is nan): a driver returning nan puts '
                       'the token NaN on the wire, which is not JSON', enc)
+
+
+SAFE_ERRORS = {'replace', 'ignore', 'backslashreplace', 'xmlcharrefreplace', 'namereplace'}
+
+
+@rule('C07.R1b', min_instances=1)
+def decode_error_echo_is_total(ctx):
+    """the raw bytes echoed in the DecodeError reply are decoded with a total codec whose result can be encoded as UTF-8 again"""
+    m = ctx.m
+    h = _handle(m)
+    ctx.analysed(h)
+    n = 0
+    for hd in [x for x in body_walk(h.node) if isinstance(x, ast.ExceptHandler) and x.type is not None and dotted(x.type) == 'DecodeError']:
+        for c in [c for st in hd.body for c in calls_in(st) if call_attr(c) == 'decode']:
+            n += 1
+            codec = c.args[0].value.lower().replace('_', '-') if c.args and isinstance(c.args[0], ast.Constant) else None
+            errors = c.args[1] if len(c.args) > 1 else kwarg(c, 'errors')
+            errors = errors.value if isinstance(errors, ast.Constant) else ('strict' if errors is None else None)
+            construct = f'{h.qualname}:raw message decoded with a total codec'
+            if codec in ('latin-1', 'latin1', 'iso-8859-1', 'iso8859-1') or (codec in ('utf-8', 'utf8', 'ascii') and errors in SAFE_ERRORS):
+                ctx.ok(construct, c, f'decode({codec!r}, errors={errors!r}) never fails and yields UTF-8 encodable text', h)
+            elif errors in ('surrogateescape', 'surrogatepass') or (codec in ('utf-8', 'utf8', 'ascii') and errors == 'strict'):
+                ctx.bad(construct, c, f'`{src(c)}` in the DecodeError branch ' +
+                        ('produces lone surrogates, which encode_msg_frame can not encode: ' if errors != 'strict' else 'raises for undecodable bytes: ') +
+                        'a request line with an invalid UTF-8 byte in action or specifier terminates the connection handler instead of '
+                        'being answered with an error reply', h)
+            else:
+                ctx.undecided(construct, c, f'codec {codec!r} / errors {errors!r} not in the table', h)
+    if not n:
+        raise AnchorMissing('decode of the raw message in the DecodeError branch not found')
+
+
+@rule('C07.R3b', min_instances=1)
+def deframer_has_no_other_early_out(ctx):
+    """TCP next_message: `return None` (no complete line yet) only after get_msg() said so"""
+    m = ctx.m
+    nm = m.method(TCPH, 'next_message', inherited=False)
+    ctx.analysed(nm)
+    cfg = CFG(nm.node, m, nm.module)
+    gm = [i for c in calls_in(nm.node) if call_name(c) == 'get_msg' for i in cfg.node_of(c)]
+    if not gm:
+        raise AnchorMissing('get_msg call in next_message not found', violation=f'{nm.qualname}:de-framing by get_msg')
+    rets = [n for n in body_walk(nm.node) if isinstance(n, ast.Return) and (n.value is None or (isinstance(n.value, ast.Constant) and n.value.value is None))]
+    for r in rets:
+        guards = [src(a.test) for a in ancestors(r) if isinstance(a, ast.If)]
+        ok = all(cfg.dominates(gm, i) for i in cfg.ids(r)) and any('is None' in g for g in guards)
+        ctx.check(ok, f'{nm.qualname}:no message only when get_msg found none', r, 'return None is dominated by get_msg() and guarded by `message is None`',
+                  f'`return None` under {guards or "no condition"} is not decided by get_msg(): complete lines that are already in the buffer '
+                  'stay unanswered for some segmentations of the byte stream', nm)
+    if not rets:
+        ctx.undecided(f'{nm.qualname}:no message only when get_msg found none', nm.node, 'no return None', nm)
+    # ingest must do nothing but append
+    ing = m.method(TCPH, 'ingest', inherited=False)
+    extra = [st for st in ing.node.body if not isinstance(st, (ast.AugAssign, ast.Expr)) and not (isinstance(st, ast.Assign) and src(st.targets[0]) == 'self.data')]
+    ctx.check(not extra, f'{ing.qualname}:only appends', ing.node, 'ingest only appends to the buffer',
+              f'ingest keeps additional framing state (`{src(extra[0]) if extra else ""}`): the framing depends on how the stream was segmented', ing)
